@@ -1,5 +1,8 @@
 import Mp.PermProofs
 import Mp.C11Bridge
+import Mp.JsonOutPerm
 /-! C11 — evaluation is pure / independent of map iteration order: property theorems. -/
 #print axioms PermP.findKey_perm
 #print axioms Mp.findMapKey_order_independent
+#print axioms Mp.GoJson.sort_perm_eq
+#print axioms Mp.GoJson.marshal_map_order_independent
